@@ -49,6 +49,7 @@ REQUIRED = ('log_replays', 'double_runs', 'copies_taken',
             'copies_in_phase:showdown', 'copies_in_phase:pull',
             'copies_in_phase:bet', 'copies_in_phase:deal',
             'records_compared_with_state_delta', 'odd_chip_push_records',
+            'cross_process_reruns',
             'observer_query_points',
             'interleave_points')
 
@@ -231,6 +232,20 @@ class CopyMonitor(Monitor):
             ctx.counters['post_hand_shows_logged'] += 0
 
 
+class ReplenishMarker(Monitor):
+    """Marks hands in which the deck was rebuilt from muck/burns/discards
+    (the keyed shuffle was called again after the set-up)."""
+
+    def on_created(self, ctx, s):
+        from vflib import load
+        self.calls = load.SHUFFLE_CALLS[0]
+
+    def on_end(self, ctx, s):
+        from vflib import load
+        if load.SHUFFLE_CALLS[0] > getattr(self, 'calls', 10 ** 9):
+            ctx.data['replenished'] = True
+
+
 class RecordMonitor(Monitor):
     """"Complete and exact": every record must state what the operation did.
     The public state just before the operation (shadow copy) and just after
@@ -383,7 +398,8 @@ class PostShow(Monitor):
 
 
 def make_monitors():
-    return [driver.Observer(), driver.Interleaver(), PostShow(), RecordMonitor(), CopyMonitor()]
+    return [driver.Observer(), driver.Interleaver(), ReplenishMarker(), PostShow(),
+            RecordMonitor(), CopyMonitor()]
 
 
 def gen_kwargs(rng):
@@ -406,12 +422,107 @@ def signature(ctx):
     return hist.default_sig(ctx)
 
 
+def digest_of(state):
+    import hashlib
+    return hashlib.blake2b(repr((twin.full_fingerprint(state),
+                                 list(state.operations))).encode(),
+                           digest_size=12).hexdigest()
+
+
+def rerun_main(path):
+    """Child process (other PYTHONHASHSEED): re-execute recorded scripts
+    and print the digests of the final states."""
+    import json
+    cases = json.load(open(path))
+    out = []
+    for c in cases:
+        cfg = hist.dec_cfg(c['cfg'])
+        try:
+            st = twin.fresh_state(cfg, autos=gen.autos_of(cfg))
+            import warnings
+            with warnings.catch_warnings():
+                warnings.simplefilter('error' if cfg['strict'] else 'ignore')
+                apply_script(st, [e for e in c['script']
+                                  if e[0] != '__fork__'])
+            out.append(digest_of(st))
+        except Exception as exc:   # noqa: BLE001
+            out.append(f'EXC {type(exc).__name__}: {exc}')
+    print(json.dumps(out))
+
+
+def cross_process(res, cases, shard):
+    """Given the same deck order the engine is deterministic -- also in
+    another interpreter process with another string-hash seed (set / dict
+    iteration order must not leak into the deal)."""
+    import json
+    import os
+    import subprocess
+    import sys
+    from vflib.run import WORK, ROOT
+    if not cases:
+        return
+    os.makedirs(WORK, exist_ok=True)
+    path = os.path.join(WORK, f'c15_rerun_{os.getpid()}_{shard}.json')
+    with open(path, 'w') as f:
+        json.dump([{'cfg': c['cfg'], 'script': c['script']} for c in cases],
+                  f)
+    try:
+        env = dict(os.environ, PYTHONHASHSEED=str(1 + shard * 7919 % 4000))
+        env.pop('PYTHONOPTIMIZE', None)
+        p = subprocess.run(
+            [sys.executable, '-m', 'vflib.monitors.c15', 'rerun', path],
+            cwd=ROOT, env=env, capture_output=True, text=True, timeout=300)
+        got = json.loads(p.stdout.strip().splitlines()[-1])
+    except Exception as exc:   # noqa: BLE001
+        res.counters['cross_process_failed'] += 1
+        res.extra.setdefault('cross_process_error', repr(exc)[:300])
+        return
+    finally:
+        try:
+            os.unlink(path)
+        except OSError:
+            pass
+    for c, g in zip(cases, got):
+        res.counters['cross_process_reruns'] += 1
+        if c.get('replenished'):
+            res.counters['cross_process_reruns_with_replenishment'] += 1
+        if g != c['digest']:
+            res.violation(
+                f'the same configuration, deck key and script give a '
+                f'different final state in another interpreter process '
+                f'(PYTHONHASHSEED {env["PYTHONHASHSEED"]} vs 0): {g} vs '
+                f'{c["digest"]} || {gen.describe(hist.dec_cfg(c["cfg"]))}',
+                {'cfg': c['cfg'], 'script': c['script'], 'pol': None,
+                 'cross_process': True})
+
+
 def run_shard(seed, shard, of, tier, deadline):
-    return hist.run_history_shard(
-        PROP, seed, shard, of, tier, deadline, cases=CASES,
+    cases = []
+
+    def after_hand(ctx, res):
+        st = ctx.state
+        if st is None or 'op_exc' in ctx.data or 'ctor_exc' in ctx.data \
+                or ctx.violations:
+            return
+        repl = bool(ctx.data.get('replenished'))
+        want = 14 if tier == 'quick' else 60
+        if len(cases) < want and (repl or len(cases) < want // 3):
+            cases.append({'cfg': hist.enc_cfg(ctx.cfg),
+                          'script': list(ctx.script),
+                          'digest': digest_of(st), 'replenished': repl})
+    res = hist.run_history_shard(
+        PROP, seed, shard, of, tier, deadline - 12, cases=CASES,
         gen_kwargs=gen_kwargs, make_monitors=make_monitors,
-        nontrivial=nontrivial, pol_tweak=pol_tweak)
+        nontrivial=nontrivial, pol_tweak=pol_tweak, after_hand=after_hand)
+    cross_process(res, cases, shard)
+    return res
 
 
 def replay(payload):
     return hist.replay_history(payload, make_monitors, PROP)
+
+
+if __name__ == '__main__':
+    import sys as _sys
+    if len(_sys.argv) == 3 and _sys.argv[1] == 'rerun':
+        rerun_main(_sys.argv[2])
